@@ -334,9 +334,9 @@ def _sampler_case(case, ctx):
     labels = ["sampler:" + case["sampler"], ns, "req:" + case["req"], "out:" + case["out"]]
 
     def chk(obj, where, want_ns):
-        for f in ("x", "log_likelihood", "log_prior", "log_q"):
+        for f in ("x", "log_likelihood", "log_prior", "log_q", "log_evidence", "log_evidence_error"):
             v = getattr(obj, f, None)
-            if v is None:
+            if v is None or not hasattr(v, "dtype"):
                 continue
             if wreq is not None and env.width_of(v) != wreq:
                 ctx.fail("sampler:width", f"{where}.{f} has dtype {v.dtype}; the user requested {case['req']} ({wreq}) [{case['sampler']} on {ns}]",
@@ -421,6 +421,26 @@ def _flow_case(case, ctx):
     fit_kw = {"n_epochs": 1, "batch_size": 40} if backend == "zuko" else {"max_epochs": 1, "batch_size": 40, "show_progress": False}
     a.fit(Samples(data, xp=xp, dtype=w), **fit_kw)
     labels = ["flow:" + backend, ns, w, "use:" + case["sampler"]]
+    if case["seed"] % 2:
+        # the proposal as a resumed run has it: written to a file and loaded into a new instance
+        import os
+        import tempfile
+
+        from aspire.utils import AspireFile
+
+        tmp = tempfile.mkdtemp(prefix="c15-")
+        try:
+            with AspireFile(os.path.join(tmp, "flow.h5"), "w") as h5:
+                a.save_flow(h5)
+            a = Aspire(log_likelihood=log_likelihood, log_prior=log_prior, dims=d, parameters=[f"p{i}" for i in range(d)],
+                       flow_backend=backend, xp=xp, dtype=w, **kwargs)
+            with AspireFile(os.path.join(tmp, "flow.h5"), "r") as h5:
+                a.load_flow(h5)
+        finally:
+            import shutil
+
+            shutil.rmtree(tmp, ignore_errors=True)
+        labels.append("reloaded-flow")
     if case["sampler"] == "wrap":
         x, lq = a.flow.sample_and_log_prob(6)
         s = Samples(x, log_q=lq, xp=xp)
